@@ -7,7 +7,7 @@ PROP = 'C02'
 MODULE = 'Props.C02'
 THEOREMS = ['C02_nonneg', 'C02_time_is_abstract', 'C02_unit', 'C02_conserved_partial', 'C02_recursion_refuted']
 LEVEL = 'proof'
-FEATURES = [{'gen'}, {'rec'}, {'gen', 'rec'}, {'co'}, set(), {'gen', 'co'}, {'mutual', 'rec'}, {'gen', 'co', 'rec', 'mutual'}]
+FEATURES = [{'gen'}, {'rec'}, {'gen', 'rec'}, {'co'}, set(), {'gen', 'co'}, {'mutual', 'rec'}, {'gen', 'co', 'rec', 'mutual'}, {'selfdisable'}, {'selfdisable', 'gen'}, {'gen', 'straddle'}]
 
 
 def run(tier, seed):
